@@ -780,6 +780,8 @@ class Builder:
         if kind == "td":
             return typing.TypedDict(name, {n: (typing.NotRequired[h] if dflt else h) for n, h, dflt in hints})
         if kind == "attrs":
+            # attr.ib(type=None) means "no annotation" (adaptix then sees Any): spell the None type explicitly
+            hints = [(n, type(None) if h is None else h, dflt) for n, h, dflt in hints]
             return attr.make_class(name, {
                 n: (attr.ib(type=h, default=DEFAULT) if dflt else attr.ib(type=h)) for n, h, dflt in hints
             })
@@ -1338,9 +1340,8 @@ def st_spec(draw, depth_left, hashable=False, avoid_known=False):  # noqa: C901,
         n = draw(st.integers(1, 3))
         return g("tuplef", *[draw(st_spec(sub, hashable=hashable, avoid_known=avoid_known)) for _ in range(n)], sp=sp)
     if choice == "bare":
-        pool = ["list", "dict", "tuple", "set", "frozenset", "deque", "type"]
-        if not avoid_known:
-            pool += ["Sequence", "Mapping", "Iterable", "MutableSequence", "AbstractSet", "Collection"]
+        pool = ["list", "dict", "tuple", "set", "frozenset", "deque", "type",
+                "Sequence", "Mapping", "Iterable", "MutableSequence", "AbstractSet", "Collection"]
         return bare(draw(st.sampled_from(pool)), sp)
     if choice == "ann":
         return ann(draw(st_spec(sub, avoid_known=avoid_known)), draw(st.sampled_from(["meta", "m2"])))
@@ -1599,9 +1600,9 @@ def st_case(draw, avoid_known=None):
     if avoid_known is None:
         avoid_known = draw(st.integers(0, 9)) != 0
     via = draw(st.sampled_from(["field", "field", "field", "field", "param", "top"]))
-    max_depth = draw(st.sampled_from([1, 2, 2, 3, 3, 4]))
+    max_depth = draw(st.sampled_from([2, 2, 3, 3, 4]))
     if via == "top":
-        src = draw(st_spec(max_depth, avoid_known=avoid_known))
+        src = draw(st_spec(max_depth - 1, avoid_known=avoid_known))
     else:
         n = draw(st.integers(1, 3))
         names = draw(st.lists(st.sampled_from(FIELD_NAMES), min_size=n, max_size=n, unique=True))
@@ -1637,8 +1638,6 @@ def st_case(draw, avoid_known=None):
 def known_classes_of(case) -> list:
     """Open-finding classes a case belongs to -- decided on the specs alone (never on what adaptix did)."""
     out = []
-    if has_bare_abc(case):
-        out.append("bare_abc")
     if nameless_hint_vs_model(case):
         out.append("nameless_hint_vs_model")
     uni = Universe(case.get("policy", ["forbid"]))
@@ -1691,7 +1690,7 @@ def explore(ctx: runner.Ctx):
         + f"; unlinked destination field: {len(POOL)} types x required/optional x {npol} policy "
         "shapes x (top level, nested, nested with a same-named parameter)")
     # 3. nested combinations: source type and a destination derived by local rewrites
-    ctx.given(st_case(), lambda case: sampled(ctx, case), ctx.budget(5000, 300000))
+    ctx.given(st_case(), lambda case: sampled(ctx, case), ctx.budget(5000, 240000))
 
 
 RULE = ("exhaustive part: every ordered pair (S, D) of a fixed pool of field types as the type of one field of "
